@@ -56,6 +56,20 @@ def _run_unit(args):
                 "obligations": [], "assumptions": [], "callees": [], "notes": [], "seconds": time.time() - t0, "sha": "", "paths": 0}
 
 
+def _cross_check(args):
+    name, seed = args
+    try:
+        if "reg" not in _worker_state:
+            _init_worker()
+        from vlib import native
+        t0 = time.time()
+        f = native.search(_worker_state["reg"], {"name": name, "engine": "pyvc"}, seed, budget=6000, deadline_s=45)
+        return {"unit": name, "ran": True, "kind": "bounded: native cross-check of a proved unit (generated inputs, real function, native contract evaluator)",
+                "budget": 6000, "seconds": round(time.time() - t0, 2), "failing": f}
+    except Exception as e:
+        return {"unit": name, "ran": False, "reason": repr(e)[:300], "failing": None}
+
+
 def repo_tree_hash():
     try:
         out = subprocess.run(["git", "-C", REPO, "rev-parse", "HEAD"], capture_output=True, text=True).stdout.strip()
@@ -152,6 +166,18 @@ def main(argv=None):
                 for r in more:
                     r["dependency"] = True
                 results.extend(more)
+        # Thorough tier: native cross-check of every unit whose obligations were all discharged:
+        # generated inputs through the REAL function, the contract evaluated by the independent
+        # exact-arithmetic interpreter.  Bounded (reported separately, never counted as proof); a
+        # failing input here is a counterexample on the real code to a clause the prover accepted.
+        if tier == "thorough":
+            todo = [r["name"] for r in results if r.get("engine") == "pyvc" and r["status"] == "ok" and not r.get("dependency")
+                    and all(o["status"] == "discharged" for o in r["obligations"])]
+            cross = pool.map(_cross_check, [(n, seed) for n in todo], chunksize=1)
+            by = {c["unit"]: c for c in cross}
+            for r in results:
+                if r["name"] in by:
+                    r["cross_check"] = by[r["name"]]
     from vlib import verdict
     return verdict.conclude(a.prop, tier, seed, results, time.time() - t0, reg)
 
